@@ -457,3 +457,125 @@ func noNegativeRepeats(x *Ctx) {
 	}
 	x.C.Obl("C09.P5", "repeat-counts:canary", "lint/testdata/canary/repeat/repeat.go", "the seeded width-minus-byte-length count is flagged; a guarded, a constant, a len and a max(0, ...) count are not", len(got) == 1 && got["Pad"], fmt.Sprint(got))
 }
+
+// noBreakOut: each loop of the function named (and of new helpers its code moved into) is left only by its loop test
+// or by a return: no break hands control to the code after the loop before every element was looked at. (A check
+// that runs once per link of a chain and stops early on some condition never sees the links beyond.)
+func noBreakOut(x *Ctx, rule, name string) {
+	root := x.fn(rule, name)
+	if root == nil {
+		return
+	}
+	fns := []*ssa.Function{root}
+	for g := range x.P.ReachFrom(root) {
+		if g != root && x.P.IsNewHelper(g) && len(g.Blocks) > 0 {
+			// only the helpers the code of root moved into: those whose instructions appear on root's own paths
+			owned := false
+			for _, o := range x.P.PathOwners(g) {
+				if o == root {
+					owned = true
+				}
+			}
+			if owned {
+				fns = append(fns, g)
+			}
+		}
+	}
+	for i := range fns {
+		for j := i + 1; j < len(fns); j++ {
+			if load.ShortName(fns[j]) < load.ShortName(fns[i]) {
+				fns[i], fns[j] = fns[j], fns[i]
+			}
+		}
+	}
+	n, bad := 0, ""
+	for _, f := range fns {
+		for _, l := range paths.Info(f).Loops {
+			n++
+			var exit *ssa.BasicBlock
+			for _, s := range l.Header.Succs {
+				if !l.Body[s] {
+					exit = s
+				}
+			}
+			if exit == nil {
+				continue
+			}
+			for _, pr := range exit.Preds {
+				if pr != l.Header && l.Body[pr] && len(pr.Instrs) > 0 {
+					bad += fmt.Sprintf("%s: %s leaves a loop over the chain through a break: the elements after it are not looked at\n", x.P.Pos(pr.Instrs[len(pr.Instrs)-1].Pos()), load.ShortName(f))
+				}
+			}
+		}
+	}
+	short := name[strings.LastIndex(name, ".")+1:]
+	x.C.Obl(rule, "no-break-out:"+short, x.pos(root), fmt.Sprintf("each of the %d loops is left only by its loop test or by a return", n), bad == "" && n >= 1, dedupLines(bad))
+}
+
+// payloadVerbatim (C07.R1): the envelope carries the payload node as the token's model renders it. In
+// envelope.ToIPLD (its literals and new helpers) the map entry keyed by the token's Tag() is qp.Node(payload): the
+// node is not rebuilt on the way in (a copy that "normalises" numbers or keys signs and seals something else than
+// the token holds).
+func payloadVerbatim(x *Ctx) {
+	f := x.fn("C07.R1", envPkg+"ToIPLD")
+	if f == nil {
+		return
+	}
+	fns := []*ssa.Function{f}
+	for g := range x.P.ReachFrom(f) {
+		if g != f && x.P.IsNewHelper(g) && len(g.Blocks) > 0 {
+			fns = append(fns, g)
+		}
+	}
+	for i := 0; i < len(fns); i++ {
+		fns = append(fns, fns[i].AnonFuncs...)
+	}
+	n, bad := 0, ""
+	for _, g := range fns {
+		for _, b := range g.Blocks {
+			for _, in := range b.Instrs {
+				c, ok := in.(*ssa.Call)
+				if !ok {
+					continue
+				}
+				h := c.Call.StaticCallee()
+				if h == nil || h.Pkg == nil || h.Pkg.Pkg.Path() != "github.com/ipld/go-ipld-prime/fluent/qp" || h.Name() != "MapEntry" || len(c.Call.Args) != 3 {
+					continue
+				}
+				kc, ok := c.Call.Args[1].(*ssa.Call)
+				if !ok || !kc.Call.IsInvoke() || kc.Call.Method.Name() != "Tag" {
+					continue
+				}
+				n++
+				vc, ok := c.Call.Args[2].(*ssa.Call)
+				if ok {
+					if vh := vc.Call.StaticCallee(); vh != nil && vh.Pkg != nil && vh.Pkg.Pkg.Path() == "github.com/ipld/go-ipld-prime/fluent/qp" && vh.Name() == "Node" {
+						continue
+					}
+				}
+				bad += fmt.Sprintf("%s: the payload entry of the envelope is not qp.Node(payload): the payload is rebuilt before it is signed\n", x.P.Pos(in.Pos()))
+			}
+		}
+	}
+	x.C.Obl("C07.R1", "payload-verbatim:ToIPLD", x.pos(f), "the envelope's payload entry is the payload node itself", bad == "" && n > 0, dedupLines(bad))
+}
+
+// containersKeepEveryEntry (C10.R4): literal.Any's assembling loops (anyAssemble and its literals, literal.Map,
+// literal.List) emit one entry per element: one MapEntry / ListEntry in each loop, dominating every back edge.
+func containersKeepEveryEntry(x *Ctx) {
+	for _, name := range []string{"pkg/policy/literal.anyAssemble"} {
+		f := x.fn("C10.R4", name)
+		if f == nil {
+			continue
+		}
+		totalLoop(x, "C10.R4", "every-entry:"+name[strings.LastIndex(name, ".")+1:], f, "a map or list value is assembled with one entry per element of the caller's value: no element is skipped",
+			func(in ssa.Instruction) (ssa.Value, bool) {
+				if c, ok := in.(*ssa.Call); ok {
+					if h := c.Call.StaticCallee(); h != nil && h.Pkg != nil && h.Pkg.Pkg.Path() == "github.com/ipld/go-ipld-prime/fluent/qp" && (h.Name() == "MapEntry" || h.Name() == "ListEntry") {
+						return c.Call.Args[len(c.Call.Args)-1], true
+					}
+				}
+				return nil, false
+			}, nil)
+	}
+}
